@@ -236,6 +236,7 @@ Fixpoint parse_opts (fuel : nat) (b : bytes) (o : new_options) : res new_options
       if blen b <? 2 then Err EOther else
       let t := at_ b 0 in
       let l := at_ b 1 * 8 in
+      if l =? 0 then Err EOther else              (* repaired f37ae93 (HANDLERS, #12): was panic / endless loop *)
       if blen b <? l then Err EOther else
       (o' <- opt_step o t (firstn (N.to_nat l) b) ;;
        parse_opts f (skipn (N.to_nat l) b) o')%res
